@@ -5,3 +5,6 @@ open Gossamer.C04
 #print axioms C04_getFromDB_stored
 #print axioms C04_absent
 #print axioms C04_empty
+#print axioms C04_writeDirty_stores
+#print axioms C04_writeDirty_coherent
+#print axioms C04_writeDirty_getFromDB
